@@ -127,7 +127,12 @@ RULE = ('(0) constructor: allow_origins / expose_headers / allow_credentials dra
         'random pre-existing response headers (any subset of the six grant headers, Allow and other headers, random name case) x req_succeeded: the real CORSMiddleware.process_response / '
         'process_response_async is called on real falcon Request/Response objects of both stacks and compared with the model. '
         '(2) full stack: real falcon.App / falcon.asgi.App with the middleware alone, before/after/between other middleware (one of which may fail in process_request), independent_middleware on/off, cors_enable=True; '
-        'targets: routed resource (auto-OPTIONS / custom on_options with and without Allow / custom on_options behind before+after hooks), sinks with/without Allow, static route, unrouted; responders that pre-set CORS headers. '
+        'targets: routed resource (auto-OPTIONS / custom on_options with and without Allow / custom on_options behind before+after hooks), sinks with/without Allow, static route without and with fallback_filename '
+        '(existing and missing file), unrouted; responders that pre-set CORS headers. '
+        'OUTSIDE AN APPROVED PREFLIGHT every exchange (any method x Origin absent / disallowed / allowed x Access-Control-Request-Method absent / empty / set x every target kind) is also judged by an ABSOLUTE rule that does not '
+        'use the twin: the Access-Control-* headers of the response of the twin WITHOUT any CORS policy must be a subset of what the harness responder itself pre-set (nothing at all on static / unrouted / framework-answered targets); with a policy the same '
+        'for requests without Origin / from disallowed origins, and for allowed origins no Allow-Methods / Allow-Headers / Max-Age unless the request is OPTIONS with Access-Control-Request-Method - so a grant written by any other built-in part '
+        '(static route, default responders) is seen even when twin and app agree. '
         'HOW THE EXCHANGE ENDS is an input: in 55 % of the requests one (8 %: two) of the stages responder / before hook / after hook / process_request, process_resource, process_response of a component before or after the CORS one '
         'ends by raising HTTPStatus (200, 204, 302, 401, 503; with an Allow header, without, or after setting Allow on the response itself), HTTPError (400, 405 carrying Allow, 401/429/503 with or without Allow) or a plain exception whose '
         'registered handler answers 500 / sets Allow / raises HTTPStatus 204 with Allow itself; a responder may also RETURN after choosing a status (200, 202, 204, 503). The oracle counts the exchange as successful iff nothing raised '
@@ -1338,6 +1343,7 @@ def _apps(ctx, asgi):
         app.add_route('/rh', ResHook())
         app.add_sink(sink, '/sink')
         app.add_static_route('/static', root)
+        app.add_static_route('/sfb', root, fallback_filename='f.txt')
         if asgi:
             async def on_boom(req, resp, ex, params, **kw):
                 boom_handler(resp, ex)
@@ -1463,7 +1469,7 @@ def _apps(ctx, asgi):
                 method = rnd.choice(['GET', 'POST', 'OPTIONS', 'OPTIONS', 'OPTIONS', 'HEAD', 'DELETE'])
                 acrm = rnd.choice([None, 'GET', 'GET', 'PUT', ''])
                 acrh = rnd.choice([None, None, 'X-H', 'X-H, Content-Type', ''])
-                path = rnd.choice(['/r', '/r', '/ro', '/ro', '/rh', '/rh', '/sink/a', '/sink/b', '/static/f.txt', '/static/missing', '/none'])
+                path = rnd.choice(['/r', '/r', '/ro', '/ro', '/rh', '/rh', '/sink/a', '/sink/b', '/static/f.txt', '/static/missing', '/sfb/f.txt', '/sfb/missing', '/none'])
                 PLAN.clear()
                 PLAN.update({'preset': dict(rnd.choice(PRESETS)), 'allow': rnd.choice([None, 'GET, PUT', 'GET', None]), 'end': gen_endings(tags)})
                 hdrs = {}
@@ -1491,6 +1497,37 @@ def _apps(ctx, asgi):
                 if why is None:
                     case['response'] = {'status': F[0], 'headers': F[1]}
                     case['response_without_cors_middleware'] = {'status': T[0], 'headers': T[1]}
+                    # ABSOLUTE rule (no twin involved): cross-origin response headers come from the policy alone.  Whatever the target - routed, automatic
+                    # OPTIONS, custom on_options, hooks, sink, static route with / without fallback, unrouted - the only other Access-Control-* headers a response
+                    # may carry are those the application's OWN responder put there (PLAN['preset'], known to the harness; only if that responder ran).
+                    tgt_kind = {'/r': 'auto_options', '/ro': 'on_options', '/rh': 'hooked', '/none': 'unrouted', '/sfb/f.txt': 'static_fallback_hit', '/sfb/missing': 'static_fallback_miss',
+                                '/static/f.txt': 'static_hit', '/static/missing': 'static_miss'}.get(path, 'sink')
+                    allowed_ = origin is not None and (ao == '*' or origin in ao)
+                    why_abs = None
+                    for who, (st_h, hd_h, _), ran_h in (('an app with NO CORS policy at all', T, twin_ran), ('the app with the policy', F, app_ran)):
+                        own = {n.lower(): v for n, v in PLAN['preset'].items() if n.lower().startswith('access-control-')} if ran_h else {}
+                        acs = {k: v for k, v in hd_h.items() if k.startswith('access-control-')}
+                        foreign = {k: v for k, v in acs.items() if own.get(k) != v}
+                        if who.startswith('an app'):
+                            if foreign:
+                                why_abs = f'{who} answers {method} {path} ({tgt_kind}) with cross-origin headers nobody configured: {foreign}'
+                                break
+                        elif not allowed_:
+                            if foreign:
+                                why_abs = (f'{who}: the request ' + ('carries no Origin' if origin is None else f'comes from the disallowed origin {origin!r}') +
+                                           f', but the response to {method} {path} ({tgt_kind}) carries {foreign}')
+                                break
+                        elif not (method == 'OPTIONS' and acrm):
+                            pf = {k: v for k, v in foreign.items() if k in ('access-control-allow-methods', 'access-control-allow-headers', 'access-control-max-age')}
+                            if pf:
+                                why_abs = (f'{who}: {method} {path} ({tgt_kind}) ' + ('without Access-Control-Request-Method' if method == 'OPTIONS' else '') +
+                                           f' is no preflight, but the response carries the preflight approval {pf}')
+                                break
+                    ctx.oracle('outside an approved preflight no target adds cross-origin headers: an app without a CORS policy emits no Access-Control-* header (beyond what its own responder set); with a policy none '
+                               'for requests without Origin / from disallowed origins, and no methods / headers / max-age approval unless the request is OPTIONS with Access-Control-Request-Method',
+                               why_abs is None, why_abs, case)
+                    ctx.count(f'app_{stack}_target_{tgt_kind}_' + ('preflight' if (method == 'OPTIONS' and acrm) else 'options_without_acrm' if method == 'OPTIONS' else 'not_options') +
+                              ('_no_origin' if origin is None else '_allowed' if allowed_ else '_disallowed'))
                     # every call of the middleware inside the app is also a model case
                     for pre, ok, post in rec:
                         sess.case(case)
@@ -1535,7 +1572,7 @@ def _apps(ctx, asgi):
                         ctx.count(f'app_origin_{"is_the_request_own_address" if rel == "own" else "near_the_request_own_address"}_' + ('allowed' if allowed else 'disallowed'))
                     if allowed and method == 'OPTIONS' and acrm:
                         ctx.count(f'app_{stack}_preflight_' + ('failed_exchange' if T[0] >= 400 else 'approved' if 'access-control-allow-methods' in Fh else 'denied'))
-                        tgt = {'/r': 'auto-options', '/ro': 'on_options', '/rh': 'hooked-on_options', '/none': 'unrouted'}.get(path, path.split('/')[1])
+                        tgt = {'/r': 'auto-options', '/ro': 'on_options', '/rh': 'hooked-on_options', '/none': 'unrouted', '/sfb/f.txt': 'static-with-fallback', '/sfb/missing': 'static-with-fallback'}.get(path, path.split('/')[1])
                         if not app_raised:
                             e = PLAN['end'].get('responder') if app_ran else None
                             ctx.count(f'app_preflight_{tgt}_ends_by_' + ('return' if e is None else 'return_with_chosen_status') + ('' if (app_ran or T[0] < 400) else '_of_the_framework_404'))
